@@ -141,6 +141,9 @@ func historyStats(res *runner.CaseResult, world *sim.World, h sim.History) (edit
 		}
 	}
 	res.AddStat("edits_applied", int64(applied))
+	for k, v := range world.GuardVetoes {
+		res.AddStat("guard_vetoes_"+k, v)
+	}
 	return len(ed), applied
 }
 
